@@ -13,3 +13,21 @@ def table_entry(v):
 
 def table():
     return [table_entry(v) for v in range(256)]
+
+
+def syndrome_bits(nbits):
+    """reference checksum as 24 GF(2)-linear forms over frame bits: result[j] = mask of frame-bit atoms XORed into
+    checksum bit j (LSB first). checksum = (M(x) mod G) where M(x) = sum f[i] x^(nbits-1-i)."""
+    masks = [0] * 24
+    for i in range(nbits):
+        # x^(nbits-1-i) mod G
+        e = nbits - 1 - i
+        r = 1
+        for _ in range(e):
+            r <<= 1
+            if r & (1 << 24):
+                r ^= GEN
+        for j in range(24):
+            if (r >> j) & 1:
+                masks[j] |= 1 << i
+    return masks
